@@ -4,4 +4,4 @@ import "github.com/scigolib/hdf5/internal/zzverif/ev"
 
 // part A is added with the file-level helpers (see c19a implementation below).
 func c19ACases(tier string) int { return 0 }
-func c19aRun(c *ev.Ctx)          {}
+func c19aRun(c *ev.Ctx)         {}
